@@ -6,7 +6,10 @@ use crate::{Hash, PublicKey, SigningHash};
 use crate::{Signature, ToHex};
 use elliptic_curve::sec1::ToEncodedPoint;
 use k256::SecretKey;
+#[cfg(not(bsv_verif))]
 use rand_core::OsRng;
+#[cfg(bsv_verif)]
+use crate::verif_hooks::SimOsRng as OsRng;
 
 #[derive(Debug, Clone)]
 pub struct PrivateKey {
